@@ -270,6 +270,33 @@ def run_ldpc_hdpc(rep, crate, cfg):
             lkp = lambda n: ("call", "systematic_constants::" + n, (KP32,))
             okargs = ia[1:] == [lkp("num_lt_symbols"), lkp("systematic_index"), lkp("calculate_p1")] and \
                 ea[1:4] == [lkp("num_lt_symbols"), lkp("num_pi_symbols"), lkp("calculate_p1")] and ea[0] == terms.normalise(terms.strip_casts(it[0]))
+        # one G_ENC row per received symbol: the loop runs over the whole list of received ISIs, without early exit,
+        # and row r is built from the r-th ISI
+        def gsink(ct, t):
+            if ct[0] == "call" and isinstance(ct[1], str) and ct[1].split("::")[-1] in ("intermediate_tuple", "enc_indices"):
+                return ct[1].split("::")[-1]
+            return None
+        gls = loops.LoopSummary(f, gsink)
+        gev = [e for e in gls.events if e["sink"] == "intermediate_tuple"]
+        okall = len(gev) == 1 and gev[0]["loop"] is not None
+        gdet = {}
+        if okall:
+            lp = gls.loops[gev[0]["loop"]]
+            src = terms.normalise(terms.strip_casts(lp["source"])) if lp["source"] else None
+            isi = terms.normalise(terms.strip_casts(gev[0]["args"][0]))
+            item = ("item", lp["id"])
+            LIST = P(2)
+            f_enum = src == ("call", "std::iter::Iterator::enumerate", (("call", "std::slice::<impl [T]>::iter", (LIST,)),)) and \
+                isi in (("deref", ("field", item, 1)), ("field", item, 1))
+            f_range = src == ("agg", "adt:std::ops::Range", (("const", 0), terms.normalise(("call", "std::slice::<impl [T]>::len", (LIST,))))) and \
+                terms.find(item, isi) is not None and terms.find(LIST, isi) is not None
+            body = gls.loops_raw[lp["head"]]
+            live = f.cfg._can_reach_exit()
+            exits = [(b, s_) for b in sorted(body) for s_ in f.cfg.succ[b] if s_ not in body and s_ in live]
+            okall = (f_enum or f_range) and not lp["conds"] and len(exits) == 1 and lp["parent"] is None
+            gdet = {"loop_source": fmt(src)[:120] if src else None, "isi": fmt(isi)[:80], "exits": len(exits)}
+        rep.check(okall, R, k, "genc-all-received", f.loc(),
+                  "G_ENC has one row for every received symbol: the row loop runs over the whole ISI list, with no early exit", gdet, cfg)
         rep.check(okargs, R, k, "genc-arguments", f.loc(),
                   "each G_ENC row uses Tuple[K', ISI] and Enc with the W, J, P, P1 of the same K'",
                   {"tuple_call": fmt(it[0])[:200] if it else None, "enc_call": fmt(ei[0])[:200] if ei else None}, cfg)
@@ -499,46 +526,69 @@ def run_isi(rep, crate, cfg, R="C04-R5"):
         # K: the u32 field compared with the packet's ESI for the source/repair split
         tb = terms.TermBuilder(f)
 
+        from .. import seqs
+        from . import dec as decmod
+
         def sink(ct, t):
-            if ct[0] == "call" and isinstance(ct[1], str) and ct[1].endswith("Vec::<T, A>::push"):
-                return "push"
+            if ct[0] == "call" and isinstance(ct[1], str):
+                sh = ct[1].split("::")[-1]
+                if ct[1].endswith("Vec::<T, A>::push"):
+                    return "push"
+                if sh == "extend":
+                    return "extend"
+                if sh in ("generate_constraint_matrix", "generate_constraint_matrix_no_hdpc"):
+                    return "matrix"
             return None
         ls = loops.LoopSummary(f, sink)
-        pushes = [e for e in ls.events if e["args"][0][0] == "ref" and e["args"][0][1][0] == "call"
-                  and e["args"][0][1][1].endswith("Vec::<T>::new")]
         SELF = ("deref", P(1))
-        # padding loop gives K and K'
-        kfield = None
-        for l in ls.loops:
-            m = match(("agg", "adt:std::ops::Range", (("field", SELF, V("k")), ("call", "systematic_constants::extended_source_block_symbols", (("field", SELF, V("k")),)))), l["source"] or ("none",))
-            if m:
-                kfield = m["k"]
-                break
-        rep.check(kfield is not None, R, f.key, "padding-range", f.loc(),
-                  "padding symbols are the ISIs K..K' (loop over K..extended_source_block_symbols(K))", None, cfg)
-        if kfield is None:
+        r = decmod.roles_sbd(crate)
+        mats = [e for e in ls.events if e["sink"] == "matrix"]
+        rep.floor(R, len(mats), 1, "constraint matrix built from the list of received ISIs", cfg)
+        if not mats or any(k_ not in r for k_ in ("source_symbols", "repair_packets")):
             continue
-        K = ("field", SELF, kfield)
-        KP = ("call", "systematic_constants::extended_source_block_symbols", (K,))
-        kinds = {}
-        for e in pushes:
-            v = N(e["args"][1])
-            l = ls.loops[e["loop"]] if e["loop"] is not None else None
-            if v == ("item", e["loop"]) and l and match(("agg", "adt:std::ops::Range", (K, KP)), l["source"]) is not None:
-                kinds["padding"] = True
-            elif match(("field", ("item", e["loop"]), 0), v) is not None and l and l["source"][0] == "call" and l["source"][1].endswith("Iterator::enumerate"):
-                kinds["source"] = True
+        target = mats[0]["args"][1]
+        while target[0] in ("ref", "deref", "deref*"):
+            target = target[1]
+        same_list = all(seqs._strip_refs(e["args"][1]) == target for e in mats)
+        segs, problems = seqs.vector_segments(crate, f, ls, lambda b: b == target, lambda blk: decmod.conds_of(ls, blk))
+        segs = [seqs.norm_seg(g) for g in segs]
+        IX = seqs.IX
+        SRC = ("field", SELF, r["source_symbols"])
+        REP = ("field", SELF, r["repair_packets"])
+        kf = [i_ for i_ in r["u32s"]]
+        found = {"segments": [{"count": fmt(g["count"])[:80], "value": fmt(g["value"])[:120], "cond": fmt(g["cond"])[:100] if g["cond"] else None}
+                              for g in segs], "problems": problems}
+        ok = same_list and not problems and len(segs) == 3
+        kfield = None
+        if ok:
+            s1, s2, s3 = segs
+            # source symbols: ISI i for every received source symbol i
+            c1 = s1["cond"]
+            ok1 = s1["count"] == ("len", SRC) and s1["value"] == IX and c1 is not None and c1[0] == "call" and \
+                c1[1].endswith("Option::<T>::is_some") and seqs._strip_refs(c1[2][0]) == ("index", SRC, IX)
+            # padding: K..K'
+            m = match(("op", "Add", IX, ("field", SELF, V("k"))), s2["value"]) or match(("op", "Add", ("field", SELF, V("k")), IX), s2["value"])
+            ok2 = False
+            if m is not None and m["k"] in kf:
+                kfield = m["k"]
+                K = ("field", SELF, kfield)
+                KP = ("call", "systematic_constants::extended_source_block_symbols", (K,))
+                ok2 = s2["cond"] is None and s2["count"] == N(("op", "Sub", KP, K))
+                # repair: ESI + (K' - K) for every stored repair packet
+                pad = N(("op", "Sub", KP, K))
+                parts = addends(s3["value"])
+                esi = [p_ for p_ in parts if p_ != pad]
+                ok3 = s3["cond"] is None and s3["count"] == ("len", REP) and pad in parts and len(parts) == 2 and len(esi) == 1 and \
+                    esi[0][0] == "call" and esi[0][1].endswith("PayloadId::encoding_symbol_id") and \
+                    terms.find(("index", REP, IX), esi[0]) is not None
             else:
-                m = match(("op", "Add", V("a"), V("b")), v)
-                if m:
-                    parts = [m["a"], m["b"]]
-                    pad = N(("op", "Sub", KP, K))
-                    esi = [p for p in parts if p != pad]
-                    if pad in parts and len(esi) == 1 and esi[0][0] == "call" and esi[0][1].endswith("PayloadId::encoding_symbol_id"):
-                        kinds["repair"] = True
-                    else:
-                        kinds["repair-bad"] = fmt(v)[:200]
-        rep.check(kinds.get("source") and kinds.get("padding") and kinds.get("repair") and "repair-bad" not in kinds, R, f.key,
+                ok3 = False
+            ok = ok1 and ok2 and ok3
+            found.update(source=ok1, padding=ok2, repair=ok3)
+        rep.check(kfield is not None, R, f.key, "padding-range", f.loc(),
+                  "padding symbols are the ISIs K..K' (K' = extended_source_block_symbols(K))", None, cfg)
+        rep.check(ok, R, f.key,
                   "decoder-isis", f.loc(),
-                  "rows of the decoding system: source symbol i -> ISI i, padding -> K..K', repair ESI e -> ISI e + (K' - K)",
-                  {"found": kinds}, cfg)
+                  "rows of the decoding system, in this order: ISI i for each received source symbol i; K..K' (padding); "
+                  "ESI + (K' - K) for each stored repair packet - and nothing else",
+                  found, cfg)
